@@ -24,11 +24,12 @@ def mkinv(*specs):
     return inv
 
 
-AMOUNTS = [None, A(D('1.50'), 'USD'), A(D('-2'), 'EUR'), A(D('0'), 'USD'), A(D('3.14159'), 'USD'), A(D('7'), 'JPY')]
+AMOUNTS = [None, A(D('1.50'), 'USD'), A(D('-2'), 'EUR'), A(D('0'), 'USD'), A(D('3.14159'), 'USD'), A(D('7'), 'JPY'),
+           A(D('2.125'), 'IRAUSD')]        # a currency code that contains another one (USD): codes are compared whole
 POSITIONS = [None, position.Position(A(D('2'), 'HOOL'), Cost(D('100'), 'USD', datetime.date(2020, 1, 1), None)), position.Position(A(D('5.5'), 'USD'), None),
-             position.Position(A(D('-1'), 'HOOL'), None), position.Position(A(D('0.001'), 'EUR'), None)]
+             position.Position(A(D('-1'), 'HOOL'), None), position.Position(A(D('0.001'), 'EUR'), None), position.Position(A(D('3'), 'XHOOL'), None)]
 INVS = [None, mkinv(), mkinv(('1', 'USD', None)), mkinv(('2', 'HOOL', '100'), ('3', 'HOOL', '110'), ('4.25', 'USD', None)), mkinv(('-2', 'EUR', None), ('2', 'USD', None)),
-        mkinv(('1', 'HOOL', '100'), ('-1', 'HOOL', '100'), ('9', 'EUR', None))]
+        mkinv(('1', 'HOOL', '100'), ('-1', 'HOOL', '100'), ('9', 'EUR', None)), mkinv(('1.5', 'IRAUSD', None), ('2', 'USD', None))]
 PLAIN = [None, 1, 'x', D('2.5'), datetime.date(2024, 1, 1), True]
 POOLS = {amount.Amount: AMOUNTS, position.Position: POSITIONS, inventory.Inventory: INVS, int: [None, 1, 2], str: [None, 'x', 'y'], Decimal: [None, D('1.5')]}
 
@@ -100,7 +101,7 @@ def check(case):
     dformat = None
     if use_fmt:
         dc = display_context.DisplayContext()
-        for cur, num in (('USD', D('1.23')), ('EUR', D('1.2')), ('HOOL', D('1')), ('JPY', D('1'))):
+        for cur, num in (('USD', D('1.23')), ('EUR', D('1.2')), ('HOOL', D('1')), ('JPY', D('1')), ('IRAUSD', D('1.234')), ('XHOOL', D('1.2'))):
             dc.update(num, cur)
         dformat = dc.build()
     desc = tuple(Column(n, t) for n, t in columns)
@@ -142,7 +143,7 @@ def cases(tier, seed):
     for _ in range(300 if tier == 'quick' else 5000):
         k = rng.randint(1, 4)
         ct = tuple(rng.choice(types_) for _ in range(k))
-        rows = tuple(tuple(rng.randrange(6) for _ in range(k)) for _ in range(rng.randint(0, 5)))
+        rows = tuple(tuple(rng.randrange(8) for _ in range(k)) for _ in range(rng.randint(0, 5)))
         out.append((ct, rows, rng.random() < 0.5))
     return out
 
